@@ -12,6 +12,7 @@ package main
 
 import (
 	"fmt"
+	"go/token"
 	"go/types"
 	"sort"
 	"strings"
@@ -308,28 +309,43 @@ func c14Close(c *Ctx, pr *PropertyRun) {
 			// dominated by a close (call or defer)
 			ok = true
 			var badRet ssa.Instruction
-			for _, b := range fn.Blocks {
-				ret, isRet := b.Instrs[len(b.Instrs)-1].(*ssa.Return)
-				if !isRet {
-					continue
+			isClose := map[*ssa.BasicBlock]bool{}
+			for _, cb := range closeBlocks {
+				isClose[cb] = true
+			}
+			// walk every path from the call on which the error is nil (the
+			// non-nil edge of a test of the error is a path without response)
+			seenB := map[*ssa.BasicBlock]bool{}
+			var walk func(b *ssa.BasicBlock)
+			walk = func(b *ssa.BasicBlock) {
+				if seenB[b] || isClose[b] {
+					return
 				}
-				if !call.Block().Dominates(b) {
-					continue
-				}
-				if errV != nil && knownNonNilAt(errV, b) {
-					continue // the response is nil on this path
-				}
-				dom := false
-				for _, cb := range closeBlocks {
-					if cb.Dominates(b) {
-						dom = true
-					}
-				}
-				if !dom {
+				seenB[b] = true
+				last := b.Instrs[len(b.Instrs)-1]
+				if ret, isRet := last.(*ssa.Return); isRet {
 					ok = false
 					badRet = ret
+					return
+				}
+				skip := -1
+				if iff, isIf := last.(*ssa.If); isIf && errV != nil {
+					if bin, isBin := iff.Cond.(*ssa.BinOp); isBin && ((bin.X == errV && isNilConst(bin.Y)) || (bin.Y == errV && isNilConst(bin.X))) {
+						switch bin.Op {
+						case token.NEQ:
+							skip = 0
+						case token.EQL:
+							skip = 1
+						}
+					}
+				}
+				for i, s := range b.Succs {
+					if i != skip {
+						walk(s)
+					}
 				}
 			}
+			walk(call.Block())
 			r.Ob(ok)
 			r.Sample(map[string]interface{}{"function": fnKey(fn), "close_sites": len(closeBlocks), "ok": ok, "pos": p.instrPos(call)})
 			if !ok {
